@@ -11,7 +11,7 @@ MANIFEST = {
 }
 HIDDEN = "TypeOK FailedChangesNothing ObjectsOnlyGrow FrameRefs FrameObjs ShallowReplaces EmitHist"
 CFG = """CONSTANTS Names <- MCNames Hashes <- MCHashes SymOK <- MCSymOK NoRemove <- MCNoRemove Objects <- MCObjects PackSets <- MCPackSets
- IdxVals <- MCIdxVals ShallowSets <- MCShallowSets CfgVals <- MCCfgVals Inits <- MCInits MaxOps = %d EmitAll = TRUE
+ IdxVals <- MCIdxVals ShallowSets <- MCShallowSets CfgVals <- MCCfgVals Inits <- MCInits Focus = "all" MaxOps = %d EmitAll = TRUE
 INIT Init
 NEXT Next
 INVARIANTS """ + HIDDEN + """
